@@ -157,6 +157,23 @@ func (w *World) lbOracle() {
 	if c.ReusePort || c.Loops < 1 || w.p.Cfg.Network == "udp" || c.Client || w.multi() && c.LB == 0 {
 		return
 	}
+	if c.LB == 2 {
+		// a pure function of the remote address string: every connection counts,
+		// accepted or handed over through Register/Enroll, in any order
+		byAddr := map[string]*connState{}
+		for _, cs := range w.conns {
+			if cs == nil || cs.task == "" || cs.addrStr == "" || cs.udp || w.peers[cs.idx].regOutsideRunning {
+				continue
+			}
+			if o := byAddr[cs.addrStr]; o != nil && o.task != cs.task {
+				w.violate("C15", "hash-unstable", "source-address hash: remote address %q was served by loop %s (conn %d) and by loop %s (conn %d)", cs.addrStr, o.task, o.idx, cs.task, cs.idx)
+				return
+			} else if o != nil {
+				w.probes["hash-same-address-pairs"]++
+			}
+			byAddr[cs.addrStr] = cs
+		}
+	}
 	for _, cp := range w.p.Conns {
 		if cp.Dial {
 			return // Register consumes balancer slots from other goroutines
